@@ -296,6 +296,11 @@ class Store:
 
     def cmd_addOrUpdateKeyTableEntry(self, h, a):
         e = bytes(a["address"].serialize())
+        if e == getattr(self, "refuse_partner", None):
+            import bellows.types as t
+
+            # a link key the NCP will not take (EmberZNet refuses e.g. a partner equal to its own address); later keys are fine
+            return {"status": self.st("addOrUpdateKeyTableEntry", False, t.EmberStatus.KEY_TABLE_INVALID_ADDRESS)}
         for i, k in enumerate(self.keys):
             if k is not None and k[0] == e:
                 self.keys[i] = (e, a["keyData"])
@@ -314,6 +319,8 @@ class Store:
         i = int(a["index"])
         if i >= self.K:
             return {"status": t.sl_Status.INVALID_INDEX}
+        if bytes(a["address"].serialize()) == getattr(self, "refuse_partner", None):
+            return {"status": t.sl_Status.INVALID_PARAMETER}
         self.keys[i] = (bytes(a["address"].serialize()), a["key"])
 
     def cmd_getKeyTableEntry(self, h, a):
